@@ -130,7 +130,7 @@ func vfAppliedClosed(intro *segmentIntroduction) bool {
 // id, stored fields), and the representation invariant holds again — so the
 // statement composes over histories of any length.
 //
-// vf:harness property=C01 cases=nseg:0..2;dp:1;nu:0..2;nd:0..1|nseg:1;dp:2;nu:0..1;nd:0..1|nseg:2;dp:2;nu:0;nd:1 cases.thorough=nseg:0..2;dp:1..2;nu:0..2;nd:0..2|nseg:3;dp:1;nu:0..2;nd:0..1|nseg:1;dp:3;nu:0..2;nd:0..1 goinline=1 chanslack=8 maxpaths=600000
+// vf:harness property=C01 cases=nseg:0..2;dp:1;nu:0..2;nd:0..1|nseg:1;dp:2;nu:0..1;nd:0..1|nseg:2;dp:2;nu:0;nd:1 cases.thorough=nseg:0..2;dp:1;nu:0..2;nd:0..1|nseg:1;dp:2;nu:0..1;nd:0..1|nseg:2;dp:2;nu:0..1;nd:0..1|nseg:1;dp:3;nu:0..1;nd:0..1 goinline=1 chanslack=8 maxpaths=600000
 // vf:bounds root of nseg segments with dp docs each (quick: up to 2x2 with batches of <= 1 document + 1 delete, or 2 documents on smaller roots; thorough: all of 2x2 with <= 2 documents + 2 deletes, 3x1, 1x3), arbitrary one-byte ids (collisions included) and payloads, arbitrary deleted sets leaving a live doc per segment, persisted or in-memory; batch of nu <= 2 documents (each Insert or Update of its own id) and nd deletes with arbitrary ids, ids named by the batch pairwise distinct and batch documents with distinct ids; optimistic obsoletes computed for an arbitrary subset of root segments
 // vf:assume model segment plugin (DocsMatchingTerms independent of deletions, as ice implements it); goroutines of postingsIteratorAll run inline at spawn and their channel sends do not block (results are consumed by index, so the order is immaterial)
 func VF_C01_StepBatch(nseg int, dp int, nu int, nd int) {
